@@ -642,7 +642,9 @@ def header_contract(label, type_bytes):
         ensures=[('unreadable_header_ends_the_scan', f'is_unset(result) == ({none_when})'),
                  ('position', f"True if ({none_when}) else result['position'] == pos0"),
                  ('size', f"True if ({none_when}) else result['size'] == (total - pos0 if size32 == 0 else (size64 if size32 == 1 else size32))"),
-                 ('header_size', f"True if ({none_when}) else result['header_size'] == {hdr}")],
+                 ('header_size', f"True if ({none_when}) else result['header_size'] == {hdr}"),
+                 # what lets the scan loop of Mp4Atom.load advance (cursor += size): a header that is returned never has size 0
+                 ('a_returned_header_has_a_positive_size', f"True if ({none_when}) else result['size'] >= 1")],
         canaries=['is_unset(result)' if ascii_ok else 'not is_unset(result)'],
         witness_terms=lambda w: (lambda ev: {k: ev(z3.Int(k)) for k in ('pos0', 'total', 'size32', 'size64')}),
     )
